@@ -7,6 +7,7 @@ and the index-level specification of a double-ended walk over a cycle.
 -/
 import Spade.Generated.Leaf
 import Spade.Spec
+import Spade.Algo.Voronoi
 namespace Spade
 open Spade.Generated
 
@@ -48,5 +49,16 @@ def St.hullCI (s : St) : CI :=
 
 def St.hullIterBack (s : St) : List Nat := CI.drainBack s.prv s.hullCI s.nE
 def St.hullIterFront (s : St) : List Nat := CI.drain s.nxt s.hullCI s.nE
+
+/-- `VertexHandle::out_edges` (handle_impls.rs): a `CircularIterator` from the vertex' `out_edge`
+    stepping with `CCWEdgesNextBackFn` (links read off the source by T0), empty without an out edge;
+    `VoronoiFace::adjacent_edges` maps it to Voronoi edges -/
+def St.outCI (s : St) (v : Nat) : CI :=
+  match s.vOut.getD v none with
+  | none => CI.newEmpty 0
+  | some e0 => CI.new e0
+
+def St.outEdgesFront (s : St) (v : Nat) : List Nat := CI.drain (s.follow outStep) (s.outCI v) s.nE
+def St.outEdgesBack (s : St) (v : Nat) : List Nat := CI.drainBack (s.follow outStepBack) (s.outCI v) s.nE
 
 end Spade
